@@ -39,6 +39,14 @@ pub struct Call {
     /// (a function of `lat`, so that the two distributions of an aggregate can be compared)
     #[aggregate(strategy = Histogram<f64, SortAndMerge>)]
     ratio: f64,
+    /// plain keep-last on an optional field: the last input wins, also when it is None
+    #[aggregate(strategy = KeepLast)]
+    opt_last: Option<u64>,
+}
+
+/// the optional value recorded next to the input with this id
+fn opt_of(id: u64) -> Option<u64> {
+    if id % 3 == 0 { None } else { Some(id) }
 }
 
 /// the float recorded next to the input with this id; NaNs (of either sign) are to be dropped,
@@ -93,7 +101,7 @@ struct Input {
 
 impl Input {
     fn call(&self) -> Call {
-        Call { endpoint: self.endpoint.clone(), shard: self.shard, bytes: self.bytes, lat: self.id, last: self.id, ratio: ratio_of(self.id) }
+        Call { endpoint: self.endpoint.clone(), shard: self.shard, bytes: self.bytes, lat: self.id, last: self.id, ratio: ratio_of(self.id), opt_last: opt_of(self.id) }
     }
     fn key(&self) -> (String, u64) {
         (self.endpoint.clone(), self.shard as u64)
@@ -125,6 +133,7 @@ struct AggOut {
 fn parse(a: &Appended, prefix: &str) -> Result<AggOut, String> {
     let mut out = AggOut { key: None, bytes: None, lats: vec![], last: None, ticket: a.ticket };
     let mut ratios: Option<Vec<f64>> = None;
+    let mut opt_last: Option<u64> = None;
     let mut endpoint = None;
     let mut shard = None;
     for op in &a.log {
@@ -147,6 +156,12 @@ fn parse(a: &Appended, prefix: &str) -> Result<AggOut, String> {
                     out.last = match obs.first() {
                         Some(Obs::U(u)) => Some(*u),
                         _ => return Err(format!("last not unsigned: {obs:?}")),
+                    }
+                }
+                (n, Val::Metric { obs, .. }) if n == format!("{prefix}opt_last") => {
+                    opt_last = match obs.first() {
+                        Some(Obs::U(u)) => Some(*u),
+                        _ => return Err(format!("opt_last not unsigned: {obs:?}")),
                     }
                 }
                 (n, Val::Metric { obs, .. }) if n == format!("{prefix}ratio") => {
@@ -189,6 +204,15 @@ fn parse(a: &Appended, prefix: &str) -> Result<AggOut, String> {
     }
     // the float distribution must hold exactly the non-NaN floats of the inputs the integer
     // distribution says were merged into this aggregate
+    // both keep-last fields come from the same (last) input: the optional one must be what that
+    // input carried, None included
+    if ratios.is_some() {
+        if let Some(l) = out.last {
+            if opt_last != opt_of(l) {
+                return Err(format!("keep-last-option: the keep-last field says the last input merged was {l}, whose optional value was {:?}; the aggregate reports {:?}", opt_of(l), opt_last));
+            }
+        }
+    }
     if let Some(got) = ratios {
         let mut expect: Vec<f64> = out.lats.iter().flat_map(|(id, n)| std::iter::repeat_n(ratio_of(*id), *n as usize)).filter(|v| !v.is_nan()).collect();
         expect.sort_by(|a, b| a.partial_cmp(b).unwrap());
@@ -262,7 +286,7 @@ fn parsed_snapshot(sink: &CountingSink, rep: &Report) -> Option<Vec<AggOut>> {
         match parse(&a, "") {
             Ok(o) => v.push(o),
             Err(e) => {
-                rep.violation(if e.starts_with("ratio:") { "float-distribution-does-not-contain-exactly-the-non-nan-inputs" } else { "malformed-aggregate" }, json!({"error": e, "log": format!("{:?}", a.log).chars().take(3000).collect::<String>()}));
+                rep.violation(if e.starts_with("ratio:") { "float-distribution-does-not-contain-exactly-the-non-nan-inputs" } else if e.starts_with("keep-last-option:") { "keep-last-option-field-wrong" } else { "malformed-aggregate" }, json!({"error": e, "log": format!("{:?}", a.log).chars().take(3000).collect::<String>()}));
                 return None;
             }
         }
@@ -276,7 +300,7 @@ fn parsed(sink: &CountingSink, prefix: &str, rep: &Report) -> Option<Vec<AggOut>
         match parse(&a, prefix) {
             Ok(o) => v.push(o),
             Err(e) => {
-                rep.violation(if e.starts_with("ratio:") { "float-distribution-does-not-contain-exactly-the-non-nan-inputs" } else { "malformed-aggregate" }, json!({"error": e, "log": format!("{:?}", a.log).chars().take(3000).collect::<String>()}));
+                rep.violation(if e.starts_with("ratio:") { "float-distribution-does-not-contain-exactly-the-non-nan-inputs" } else if e.starts_with("keep-last-option:") { "keep-last-option-field-wrong" } else { "malformed-aggregate" }, json!({"error": e, "log": format!("{:?}", a.log).chars().take(3000).collect::<String>()}));
                 return None;
             }
         }
@@ -799,7 +823,8 @@ fn worker_history(rng: &mut Rng, next_id: &mut u64, rep: &Report) -> bool {
     let dropped = Arc::new(AtomicBool::new(false));
     let slow_pm = *rng.pick(&[0u64, 0, 50, 500]);
     let inner = Observed { inner: KeyedAggregator::<Call, CountingSink>::new(out.clone()), flushes: flushes.clone(), dropped: dropped.clone(), slow_pm, n: rng.next_u64() };
-    let interval = Duration::from_micros(*rng.pick(&[1u64, 200, 2_000, 20_000, 3_600_000_000]));
+    // (Duration::MAX and friends: "never flush periodically")
+    let interval = *rng.pick(&[Duration::from_micros(1), Duration::from_micros(200), Duration::from_millis(2), Duration::from_millis(20), Duration::from_secs(3600), Duration::MAX, Duration::from_secs(u64::MAX / 2), Duration::from_secs(1 << 40)]);
     let sink = WorkerSink::new(inner, interval);
     let producers = 1 + rng.usize_below(if is_miri() { 2 } else { 8 });
     let per = 1 + rng.usize_below(if is_miri() { 4 } else { 300 });
